@@ -326,6 +326,36 @@ func sweepC13(tier string, shard, shards int, emit func(C13Case)) {
 			}
 		}
 	}
+	// deep programs: Dump's text grows with the square of the nesting depth (two more columns per level),
+	// and the dump of a flat infix chain is nested as deep as the chain is long - it must still compile
+	depths := []int{1100, 1600}
+	if tier == "thorough" {
+		depths = []int{200, 999, 1000, 1001, 1100, 1450, 1600, 2100}
+	}
+	for _, d := range depths {
+		right := m.Op("+", m.Var("i0"), m.Var("i1"))
+		left := m.Op("+", m.Var("i0"), m.Var("i1"))
+		nots := m.Var("b1")
+		for i := 0; i < d; i++ {
+			right = m.Op("+", m.Var(fmt.Sprintf("i%d", i%4)), right)
+			left = m.Op("+", left, m.Var(fmt.Sprintf("i%d", i%4)))
+			nots = m.Op("not", nots)
+		}
+		// (the engine's Dump takes seconds at these depths: the quick tier keeps to three programs)
+		if tier != "thorough" {
+			if d == 1100 {
+				emit(C13Case{U: u, Tree: left, Infix: true, Masks: []int{0}, Origin: "sweep-long-infix-chain"})
+				emit(C13Case{U: u, Tree: nots, Masks: []int{0}, Origin: "sweep-deep-not"})
+			} else {
+				emit(C13Case{U: u, Tree: right, Masks: []int{0}, Origin: "sweep-deep-right"})
+			}
+			continue
+		}
+		emit(C13Case{U: u, Tree: right, Masks: []int{0}, Origin: "sweep-deep-right"})
+		emit(C13Case{U: u, Tree: nots, Masks: []int{0, 15}, Origin: "sweep-deep-not"})
+		emit(C13Case{U: u, Tree: left, Infix: true, Masks: []int{0}, Origin: "sweep-long-infix-chain"})
+		emit(C13Case{U: u, Tree: m.If(m.Var("b0"), left, right), Masks: []int{0}, Events: 1, Origin: "sweep-deep-both"})
+	}
 	for _, n := range []int{15, 16, 17, 31, 32, 33, 100, 255, 256, 257} {
 		li, ls := make([]int64, n), make([]string, n)
 		for i := range li {
@@ -337,7 +367,7 @@ func sweepC13(tier string, shard, shards int, emit func(C13Case)) {
 
 var propC13 = Prop[C13Case]{
 	ID:    "C13",
-	Rule:  "typed random trees (prefix and infix sources) whose string literals, string-list elements and string constants are replaced by layout-sensitive ones (spaces, parentheses, brackets, semicolons, commas, backslashes, \\n \\r \\t, NBSP and other Unicode spaces, non-ASCII runes, U+FFFD, directive look-alikes, empty), variables renamed to identifiers with dots/underscores/non-ASCII letters, int literals at the extremes; x optimization subsets (3 per case quick, 16 thorough) x event mode. Oracle (round trip): Dump(e) compiles in prefix notation under the same names with optimizations off; dumping that program reproduces the text exactly; e and the recompiled program return the same outcome on 4 bindings; Dump is identical with ReportEvent/Debug. Programs folded to a bare scalar are set aside and counted. Non-trivial = a literal with a character outside [A-Za-z0-9_.-], or an if; distinct by source + subsets",
+	Rule:  "typed random trees (prefix and infix sources) whose string literals, string-list elements and string constants are replaced by layout-sensitive ones (spaces, parentheses, brackets, semicolons, commas, backslashes, \\n \\r \\t, NBSP and other Unicode spaces, non-ASCII runes, U+FFFD, directive look-alikes, empty), variables renamed to identifiers with dots/underscores/non-ASCII letters, int literals at the extremes; x optimization subsets (3 per case quick, 16 thorough) x event mode. Oracle (round trip): Dump(e) compiles in prefix notation under the same names with optimizations off; dumping that program reproduces the text exactly; e and the recompiled program return the same outcome on 4 bindings; Dump is identical with ReportEvent/Debug. Sweep: wide calls, long list literals, and programs nested 1100 / 1600 levels deep (200..2100 thorough) - right-nested, left-nested through a flat infix chain, chains of not. Programs folded to a bare scalar are set aside and counted. Non-trivial = a literal with a character outside [A-Za-z0-9_.-], or an if; distinct by source + subsets",
 	Gen:   genC13,
 	Check: checkC13,
 	Sweep: sweepC13,
